@@ -50,6 +50,7 @@ _json_value = st.recursive(
 
 _geometry = st.one_of(
     st.none(),
+    st.just({}),                                  # an empty object is an object, not null
     st.builds(lambda x, y: {"type": "Point", "coordinates": [x, y]}, st.integers(-180, 180), st.sampled_from([0.5, 60, -89.25])),
     st.builds(lambda pts: {"type": "LineString", "coordinates": pts},
               st.lists(st.lists(st.integers(-9, 9), min_size=2, max_size=2), min_size=2, max_size=3)),
